@@ -16,6 +16,57 @@ METHODS = ("validate", "parseAfterValidation", "reportDecodeError")
 FLAG = "disallowExtraProperties"
 
 
+
+def ctx_origin(fn, e, depth=0):
+    """where a context expression comes from, as (parameter index, field path) of fn - through local consts,
+    destructuring (`const { ctx } = job`), member reads (`job.ctx`) and locally built records (`const job = { ctx,
+    .. }; .. job.ctx`); None when it is anything else"""
+    if depth > 6 or e is None:
+        return None
+    e = unparen(e)
+    ps = ts_common.fn_params(fn)
+    t = e.get("type")
+    if t == "Identifier":
+        nm = e["value"]
+        # the innermost declaration wins: a local const / destructuring of that name
+        for d in walk(fn.get("body") or {}):
+            if d.get("type") != "VariableDeclarator" or d.get("init") is None:
+                continue
+            pat = d["id"]
+            if pat.get("type") == "Identifier" and pat["value"] == nm:
+                return ctx_origin(fn, d["init"], depth + 1)
+            if pat.get("type") == "ObjectPattern":
+                for pp in pat["properties"]:
+                    if pp["type"] == "AssignmentPatternProperty" and pp["key"]["value"] == nm and pp.get("value") is None:
+                        o = ctx_origin(fn, d["init"], depth + 1)
+                        return (o[0], o[1] + "." + nm) if o else None
+                    if pp["type"] == "KeyValuePatternProperty" and unparen(pp["value"]).get("type") == "Identifier" and unparen(pp["value"])["value"] == nm:
+                        o = ctx_origin(fn, d["init"], depth + 1)
+                        return (o[0], o[1] + "." + tsast.prop_key(pp["key"])) if o else None
+        if nm in ps:
+            return (ps.index(nm), "")
+        return None
+    if t == "MemberExpression" and e["property"].get("type") == "Identifier":
+        fld = e["property"]["value"]
+        obj = unparen(e["object"])
+        # a record built in this function: read the property of the literal
+        lit = obj
+        if obj.get("type") == "Identifier":
+            for d in walk(fn.get("body") or {}):
+                if d.get("type") == "VariableDeclarator" and d["id"].get("type") == "Identifier" and d["id"]["value"] == obj["value"] and d.get("init") is not None:
+                    lit = unparen(d["init"])
+        if lit.get("type") == "ObjectExpression":
+            for pr in lit["properties"]:
+                if pr["type"] == "KeyValueProperty" and tsast.prop_key(pr["key"]) == fld:
+                    return ctx_origin(fn, pr["value"], depth + 1)
+                if pr["type"] == "Identifier" and pr["value"] == fld:
+                    return ctx_origin(fn, pr, depth + 1)
+            return None
+        o = ctx_origin(fn, obj, depth + 1)
+        return (o[0], o[1] + "." + fld) if o else None
+    return None
+
+
 def run(cx, rep):
     fam = ts_common.Family(cx)
     mod = fam.mod
@@ -63,13 +114,14 @@ def run(cx, rep):
                 pass
             n_calls += 1
             a0 = unparen(mc[2][0])
+            org = ctx_origin(fn, a0)
             if is_fam:
                 ctxname = ps[0] if ps else None
-                ok = a0["type"] == "Identifier" and a0["value"] == ctxname
+                ok = org == (0, "")
             else:
-                ok = a0["type"] == "Identifier" and a0["value"] in ps
+                ok = org is not None
                 if ok:
-                    forwards.setdefault(id(fn), set()).add(ps.index(a0["value"]))
+                    forwards.setdefault(id(fn), set()).add(org)
                 ctxname = "one of its parameters"
             rep.ob("C11.1", "%s/%s.%s" % (label, s(mc[0])[:40], mc[1]), ok,
                    "%s calls %s.%s with `%s` instead of its own context `%s`: strict mode would be switched %s below this point" % (
@@ -89,17 +141,22 @@ def run(cx, rep):
                 if r is None or id(r[0]) not in forwards:
                     continue
                 args = [a["expression"] for a in n["arguments"]]
-                for i in sorted(forwards[id(r[0])]):
-                    if (id(n), i) in checked:
+                for (i, path) in sorted(forwards[id(r[0])]):
+                    if (id(n), i, path) in checked:
                         continue
-                    checked.add((id(n), i))
+                    checked.add((id(n), i, path))
                     a = unparen(args[i]) if i < len(args) else {"type": "missing"}
+                    # the expression `<argument><path>` read in the caller
+                    e_ = a
+                    for fld in [x for x in path.split(".") if x]:
+                        e_ = {"type": "MemberExpression", "object": e_, "property": {"type": "Identifier", "value": fld}}
+                    org = ctx_origin(fn, e_) if a.get("type") != "missing" else None
                     if is_fam:
-                        ok = a.get("type") == "Identifier" and ps and a["value"] == ps[0]
+                        ok = org == (0, "")
                     else:
-                        ok = a.get("type") == "Identifier" and a["value"] in ps
-                        if ok and ps.index(a["value"]) not in forwards.get(id(fn), set()):
-                            forwards.setdefault(id(fn), set()).add(ps.index(a["value"]))
+                        ok = org is not None
+                        if ok and org not in forwards.get(id(fn), set()):
+                            forwards.setdefault(id(fn), set()).add(org)
                             changed = True
                     rep.ob("C11.1", "%s/helper:%s" % (label, s(n["callee"])[:40]), bool(ok),
                            "%s hands `%s` to %s, which validates children with it, instead of its own context: strict mode would be switched off or on below this point" % (
